@@ -315,6 +315,27 @@ pub fn run(rep: &mut Report) {
         rep.bound("whole_day_lattice", wd.len() as u64);
         sweep(rep, "c18.read[whole-days]", wd.len() as u64, |i, out| j_read(wd[i as usize], out));
     }
+    // interior scan (round 8): evenly spread, unremarkable durations (reads, monotonicity of near neighbours) and floats
+    {
+        let nsc: u64 = if deep { 20_000_000 } else { 1_500_000 };
+        rep.bound("interior_scan_points", nsc);
+        sweep(rep, "c18.scan_read", nsc, |i, out| j_read(scan_dur(i, 0), out));
+        sweep(rep, "c18.scan_mono", nsc, |i, out| {
+            let a = scan_dur(i, 1);
+            let gap = lattice::scan_magnitude(i, 2, 0, 70).abs().max(1);
+            if a + gap <= DMAX {
+                j_mono(a, a + gap, out)
+            }
+        });
+        sweep(rep, "c18.scan_unit_float", 4 * 9 * (nsc / 4), |i, out| {
+            let k = i / 36;
+            // mantissa from a Weyl stream, exponent walking through every binade that can matter (2^-40 .. 2^90), both signs
+            let m = 1.0 + (lattice::scan_point(k, 3, 0, (1i128 << 52) - 1) as f64) / (1u64 << 52) as f64;
+            let e = -40 + ((k / 2) % 131) as i32;
+            let x = m * 2f64.powi(e) * if k % 2 == 0 { 1.0 } else { -1.0 };
+            j_unit_float((i % 4) as usize, x, UNITS[((i / 4) % 9) as usize], out)
+        });
+    }
     sweep(rep, "c18.mono", dl.len() as u64 - 1, |i, out| j_mono(dl[i as usize], dl[i as usize + 1], out));
     sweep(rep, "c18.in_seconds", 9, |i, out| j_in_seconds(UNITS[i as usize], out));
     let years10k: i128 = 10_000 * 36_525 * NS_DAY / 100;
